@@ -132,6 +132,82 @@ func subDecorator(id int, lib bool) message.SubscriberDecorator {
 	}
 }
 
+// ---------------------------------------------------------------------------------------------
+// Fault injection (retry classes)
+
+const injectedMsg = "c09 injected transient fault"
+
+// faultState counts the invocations of every decorator constructor and of every handler subscriber's Subscribe
+// and decides which of them fail.
+type faultState struct {
+	mu     sync.Mutex
+	faults []fault
+	calls  map[string]int
+	fired  int
+	log    []string
+}
+
+func newFaultState(f []fault) *faultState {
+	return &faultState{faults: f, calls: map[string]int{}}
+}
+
+func (fs *faultState) hit(kind string, id int) error {
+	fs.mu.Lock()
+	defer fs.mu.Unlock()
+	key := fmt.Sprintf("%s%d", kind, id)
+	fs.calls[key]++
+	n := fs.calls[key]
+	for _, f := range fs.faults {
+		if f.Kind == kind && f.ID == id && n >= f.Nth && n < f.Nth+f.Times {
+			fs.fired++
+			fs.log = append(fs.log, fmt.Sprintf("%s failed on its invocation %d", key, n))
+			return fmt.Errorf("%s (%s, invocation %d)", injectedMsg, key, n)
+		}
+	}
+	return nil
+}
+
+func (fs *faultState) summary() (int, string) {
+	fs.mu.Lock()
+	defer fs.mu.Unlock()
+	return fs.fired, strings.Join(fs.log, "; ")
+}
+
+func (fs *faultState) pubDecorator(id int, inner message.PublisherDecorator) message.PublisherDecorator {
+	return func(p message.Publisher) (message.Publisher, error) {
+		if err := fs.hit("pdec", id); err != nil {
+			return nil, err
+		}
+		return inner(p)
+	}
+}
+
+func (fs *faultState) subDecorator(id int, inner message.SubscriberDecorator) message.SubscriberDecorator {
+	return func(s message.Subscriber) (message.Subscriber, error) {
+		if err := fs.hit("sdec", id); err != nil {
+			return nil, err
+		}
+		return inner(s)
+	}
+}
+
+// faultSub is the subscriber handed to AddHandler in the retry classes: Subscribe fails when the plan says so
+// (nothing is subscribed then), otherwise it is the scripted subscriber.
+type faultSub struct {
+	inner *vlib.Sub
+	fs    *faultState
+	h     int
+}
+
+func (f *faultSub) Subscribe(ctx context.Context, topic string) (<-chan *message.Message, error) {
+	if err := f.fs.hit("subscribe", f.h); err != nil {
+		return nil, err
+	}
+	return f.inner.Subscribe(ctx, topic)
+}
+func (f *faultSub) Close() error   { return f.inner.Close() }
+func (f *faultSub) String() string { return fmt.Sprintf("faultsub%d:%s", f.h, f.inner.Name) }
+
 // progress tells the watching goroutine where the program runner is (for Stuck diagnoses).
 type progress struct {
 	mu    sync.Mutex
@@ -173,6 +249,31 @@ type progStats struct {
 	handlers, events                         int
 	orderObs, mixObs, foreignObs, pObs, sObs int
 	late, second, wraps                      int
+	aliasCalls, poisoned                     int // registration calls with re-used argument slices / overwritten after the call
+	fired, failedCalls, runFailed            int // injected faults that fired; Run/RunHandlers calls that returned one; of these Run itself
+	runRefused                               int // second Run calls after a failed Run that the router refused
+	afterRetry, dead                         int // judged handlers that a failed call had left unstarted; handlers started by a Run that failed (not judged)
+}
+
+func (a *progStats) add(b progStats) {
+	a.handlers += b.handlers
+	a.events += b.events
+	a.orderObs += b.orderObs
+	a.mixObs += b.mixObs
+	a.foreignObs += b.foreignObs
+	a.pObs += b.pObs
+	a.sObs += b.sObs
+	a.late += b.late
+	a.second += b.second
+	a.wraps += b.wraps
+	a.aliasCalls += b.aliasCalls
+	a.poisoned += b.poisoned
+	a.fired += b.fired
+	a.failedCalls += b.failedCalls
+	a.runFailed += b.runFailed
+	a.runRefused += b.runRefused
+	a.afterRetry += b.afterRetry
+	a.dead += b.dead
 }
 
 // runProgram executes p against a fresh Router and judges every message. It returns the observations,
@@ -212,6 +313,41 @@ func runProgram(p *program, uid string, pg *progress) (obs []observation, st pro
 	delivered := make([]bool, nH)
 	ctx := context.Background()
 	var runDone chan error
+
+	// retry classes: fault plan, the subscribers that carry it, bookkeeping of what failed calls left behind
+	var fs *faultState
+	maxAttempts := 1
+	if p.HasFaults {
+		fs = newFaultState(p.Faults)
+		for _, f := range p.Faults {
+			maxAttempts += f.Times
+		}
+	}
+	dead := make([]bool, nH)          // started by a Run call that then failed: Run cancels their context, never judged
+	pendingAtFail := make([]bool, nH) // added but not started when a failed call returned
+	faultNote := func() string {
+		if fs == nil {
+			return ""
+		}
+		_, l := fs.summary()
+		return " | injected: " + l
+	}
+
+	// alias class: the caller-owned argument slices (one per kind of call), and one value per middleware id
+	mwBuf := make([]message.HandlerMiddleware, 0, 64)
+	pdBuf := make([]message.PublisherDecorator, 0, 16)
+	sdBuf := make([]message.SubscriberDecorator, 0, 16)
+	mwVals := map[int]message.HandlerMiddleware{}
+	mwVal := func(id int) message.HandlerMiddleware {
+		if v, ok := mwVals[id]; ok {
+			return v
+		}
+		v := rec.middleware(id)
+		mwVals[id] = v
+		return v
+	}
+	poisonSeq := 0
+	nextPoison := func() int { poisonSeq++; return poisonBase + poisonSeq }
 
 	// one message to handler h, judged against the model
 	deliver := func(h, round int) bool {
@@ -261,14 +397,21 @@ func runProgram(p *program, uid string, pg *progress) (obs []observation, st pro
 		}
 		obs = append(obs, o)
 		st.events += len(got) + len(e.SDec) + len(o.GotPub)*len(e.PDec)
-		judge(p, h, e, o, fail)
+		judge(p, h, e, o, func(clause, format string, a ...any) {
+			fail(clause, format+"%s", append(a, faultNote())...)
+		})
 		return inconcl == ""
 	}
 
-	startNew := func() bool {
+	// startNew(false): after a Run/RunHandlers call that returned nil - every handler added before it was started by it.
+	// startNew(true): after a RunHandlers call that returned an injected error - only the handlers it did start.
+	startNew := func(onlyStarted bool) bool {
 		var fresh []int
 		for h := 0; h < nH; h++ {
-			if handles[h] != nil && !delivered[h] { // added before this Run/RunHandlers, so started by it
+			if handles[h] != nil && !delivered[h] {
+				if onlyStarted && !vlib.IsClosed(handles[h].Started()) {
+					continue
+				}
 				fresh = append(fresh, h)
 			}
 		}
@@ -284,6 +427,39 @@ func runProgram(p *program, uid string, pg *progress) (obs []observation, st pro
 		return true
 	}
 
+	injected := func(err error) bool { return fs != nil && err != nil && strings.Contains(err.Error(), injectedMsg) }
+	noteFailedCall := func() {
+		st.failedCalls++
+		for h := 0; h < nH; h++ {
+			if handles[h] != nil && !delivered[h] && !vlib.IsClosed(handles[h].Started()) {
+				pendingAtFail[h] = true
+			}
+		}
+	}
+	// runHandlers calls RunHandlers; a call that returns an injected error is repeated (RunHandlers "can be called
+	// multiple times") until it returns nil. No registration happens in between.
+	runHandlers := func(failedBefore int) bool {
+		for attempt := 1 + failedBefore; ; attempt++ {
+			pg.set(desc, fmt.Sprintf("RunHandlers (attempt %d)", attempt), false)
+			err := r.RunHandlers(ctx)
+			if err == nil {
+				return startNew(false)
+			}
+			if !injected(err) {
+				inconcl = fmt.Sprintf("RunHandlers: %v | program: %s", err, desc)
+				return false
+			}
+			noteFailedCall()
+			if attempt >= maxAttempts {
+				inconcl = fmt.Sprintf("RunHandlers still fails after %d attempts: %v | program: %s", attempt, err, desc)
+				return false
+			}
+			if p.DeliverBetween && !startNew(true) {
+				return false
+			}
+		}
+	}
+
 	ok := true
 	ran := false
 steps:
@@ -292,60 +468,145 @@ steps:
 		switch s.Op {
 		case opAddH:
 			hs := p.Handlers[s.H]
+			var sub message.Subscriber = subs[s.H]
+			if fs != nil {
+				sub = &faultSub{inner: subs[s.H], fs: fs, h: s.H}
+			}
 			if hs.NoPub {
 				hf := rec.handler(s.H, 0)
-				handles[s.H] = r.AddNoPublisherHandler(hs.Name, topicIn(s.H), subs[s.H], func(m *message.Message) error {
+				handles[s.H] = r.AddNoPublisherHandler(hs.Name, topicIn(s.H), sub, func(m *message.Message) error {
 					_, err := hf(m)
 					return err
 				})
 			} else {
-				handles[s.H] = r.AddHandler(hs.Name, topicIn(s.H), subs[s.H], topicOut(s.H), pubs[s.H], rec.handler(s.H, hs.Out))
+				handles[s.H] = r.AddHandler(hs.Name, topicIn(s.H), sub, topicOut(s.H), pubs[s.H], rec.handler(s.H, hs.Out))
 			}
 		case opMW:
 			var ms []message.HandlerMiddleware
-			for _, id := range s.IDs {
-				ms = append(ms, rec.middleware(id))
+			if s.Alias {
+				ms = mwBuf[:0]
+				for _, id := range s.IDs {
+					ms = append(ms, mwVal(id))
+				}
+				st.aliasCalls++
+			} else {
+				for _, id := range s.IDs {
+					ms = append(ms, rec.middleware(id))
+				}
 			}
 			if s.H < 0 {
 				r.AddMiddleware(ms...)
 			} else {
 				handles[s.H].AddMiddleware(ms...)
 			}
+			if s.Alias && s.Poison {
+				st.poisoned++
+				for i := range ms {
+					ms[i] = rec.middleware(nextPoison())
+				}
+			}
 		case opPDec:
 			var ds []message.PublisherDecorator
+			if s.Alias {
+				ds = pdBuf[:0]
+				st.aliasCalls++
+			}
 			for _, id := range s.IDs {
-				ds = append(ds, pubDecorator(id, p.PLib[id%len(p.PLib)]))
+				d := pubDecorator(id, p.PLib[id%len(p.PLib)])
+				if fs != nil {
+					d = fs.pubDecorator(id, d)
+				}
+				ds = append(ds, d)
 			}
 			r.AddPublisherDecorators(ds...)
+			if s.Alias && s.Poison {
+				st.poisoned++
+				for i := range ds {
+					ds[i] = pubDecorator(nextPoison(), i%2 == 0)
+				}
+			}
 		case opSDec:
 			var ds []message.SubscriberDecorator
+			if s.Alias {
+				ds = sdBuf[:0]
+				st.aliasCalls++
+			}
 			for _, id := range s.IDs {
-				ds = append(ds, subDecorator(id, p.SLib[id%len(p.SLib)]))
+				d := subDecorator(id, p.SLib[id%len(p.SLib)])
+				if fs != nil {
+					d = fs.subDecorator(id, d)
+				}
+				ds = append(ds, d)
 			}
 			r.AddSubscriberDecorators(ds...)
+			if s.Alias && s.Poison {
+				st.poisoned++
+				for i := range ds {
+					ds[i] = subDecorator(nextPoison(), i%2 == 0)
+				}
+			}
 		case opRun:
 			runDone = make(chan error, 1)
 			go func() { runDone <- r.Run(ctx) }()
 			pg.set(desc, "waiting for Running()", false)
 			select {
 			case <-r.Running():
+				ran = true
+				ok = startNew(false)
 			case err := <-runDone:
-				inconcl = fmt.Sprintf("Run returned before Running(): %v | program: %s", err, desc)
 				runDone = nil
-				ok = false
-				break steps
+				if !injected(err) {
+					inconcl = fmt.Sprintf("Run returned before Running(): %v | program: %s", err, desc)
+					ok = false
+					break steps
+				}
+				// Run itself returned the injected error. Run cannot be called again ("router is already running"), the
+				// retry is RunHandlers. Run cancels the context it gave to the handlers it did start, so those stop: they
+				// are not judged; wait until they are gone (their middleware snapshot is taken by then).
+				reapDead := func() {
+					noteFailedCall()
+					st.runFailed++
+					for h := 0; h < nH; h++ {
+						if handles[h] != nil && !delivered[h] && vlib.IsClosed(handles[h].Started()) {
+							dead[h], delivered[h] = true, true
+							st.dead++
+							pg.set(desc, fmt.Sprintf("waiting for handler h%d, started by the failed Run, to stop", h), false)
+							<-handles[h].Stopped()
+						}
+					}
+				}
+				reapDead()
+				ran = true
+				failed := 1
+				if p.RetryRun {
+					// what a caller would try first: Run again. The router refuses ("router is already running") before it
+					// does anything; should it ever accept, the call is treated like any other start call.
+					rd := make(chan error, 1)
+					go func() { rd <- r.Run(ctx) }()
+					pg.set(desc, "waiting for Running() or the refusal of the second Run", false)
+					select {
+					case <-r.Running():
+						runDone = rd
+						ok = startNew(false)
+						break
+					case err := <-rd:
+						if injected(err) {
+							reapDead()
+							failed++
+						} else {
+							st.runRefused++
+						}
+					}
+				}
+				if runDone == nil {
+					ok = runHandlers(failed)
+				}
 			}
-			ran = true
-			if ok = startNew(); !ok {
+			if !ok {
 				break steps
 			}
 		case opRunH:
-			if err := r.RunHandlers(ctx); err != nil {
-				inconcl = fmt.Sprintf("RunHandlers: %v | program: %s", err, desc)
-				ok = false
-				break steps
-			}
-			if ok = startNew(); !ok {
+			if ok = runHandlers(0); !ok {
 				break steps
 			}
 		}
@@ -358,7 +619,7 @@ steps:
 			inconcl = fmt.Sprintf("repeated RunHandlers: %v | program: %s", err, desc)
 		} else {
 			for h := 0; h < nH; h++ {
-				if ex[h].Started && ex[h].Stable && delivered[h] {
+				if ex[h].Started && ex[h].Stable && delivered[h] && !dead[h] {
 					st.second++
 					if !deliver(h, 1) {
 						break
@@ -369,10 +630,13 @@ steps:
 	}
 	for h := 0; h < nH; h++ {
 		e := ex[h]
-		if !e.Started || !delivered[h] {
+		if !e.Started || !delivered[h] || dead[h] {
 			continue
 		}
 		st.handlers++
+		if pendingAtFail[h] {
+			st.afterRetry++
+		}
 		if len(e.MW) >= 2 {
 			st.orderObs++
 			rl, hl := false, false
@@ -403,6 +667,9 @@ steps:
 	rec.mu.Lock()
 	st.wraps = rec.wraps
 	rec.mu.Unlock()
+	if fs != nil {
+		st.fired, _ = fs.summary()
+	}
 
 	// shut the router down so goroutines do not pile up across programs
 	pg.set(desc, "Router.Close", false)
@@ -416,6 +683,10 @@ steps:
 	pg.set("", "", false)
 	return obs, st, viol, inconcl
 }
+
+// ids from poisonBase on belong to middlewares / decorators the caller wrote into its own argument slice after a
+// registration call had returned: they were never registered.
+const poisonBase = 9000
 
 func isRouterLevel(p *program, id int) bool {
 	for _, s := range p.Steps {
@@ -458,6 +729,9 @@ func owner(p *program, id int) string {
 				}
 			}
 		}
+	}
+	if id > poisonBase {
+		return "never registered: written into the caller's argument slice after the call returned"
 	}
 	return "unknown"
 }
@@ -527,6 +801,9 @@ func judge(p *program, h int, e expect, o observation, fail func(clause, format 
 		if sortedMarks(o.GotSub) != sortedMarks(o.WantSub) {
 			clause = "subdec-set"
 		}
+		if p.HasFaults {
+			clause = "retry-subdec" // the handler was started by a program with failing (and retried) Run/RunHandlers calls
+		}
 		fail(clause, "handler h%d (%q): subscriber decorators acted on the incoming message as [%s], added as [%s]", h, name, o.GotSub, o.WantSub)
 		return
 	}
@@ -535,6 +812,9 @@ func judge(p *program, h int, e expect, o observation, fail func(clause, format 
 			clause := "pubdec-order"
 			if sortedMarks(g) != sortedMarks(o.WantPub) {
 				clause = "pubdec-set"
+			}
+			if p.HasFaults {
+				clause = "retry-pubdec"
 			}
 			fail(clause, "handler h%d (%q): publisher decorators acted on the outgoing message as [%s], added as [%s]", h, name, g, o.WantPub)
 			return
